@@ -9,6 +9,17 @@ use crate::engines::seq::{self, Checks, SeqSpec};
 use crate::evidence::{self, Report};
 use crate::world::{BloomCfg, Op};
 
+/// `--replay <file>`: re-execute one recorded violation (seq: operation list, sched: schedule)
+/// without the explorer, twice, and require identical observations.
+#[derive(Debug, Clone)]
+pub struct ReplayReq {
+    pub spec: String,
+    pub ops: Option<Vec<Op>>,
+    pub schedule: Option<Vec<usize>>,
+}
+
+static REPLAY: std::sync::OnceLock<ReplayReq> = std::sync::OnceLock::new();
+
 pub struct Args {
     pub prop: String,
     pub tier: String,
@@ -32,6 +43,27 @@ fn parse(args: &[String]) -> Args {
             }
             "--threads" => {
                 a.threads = args[i + 1].parse().unwrap();
+                i += 1;
+            }
+            "--replay" => {
+                let v: serde_json::Value = serde_json::from_str(&std::fs::read_to_string(&args[i + 1]).expect("replay file")).expect("replay json");
+                if a.prop.is_empty() {
+                    a.prop = v["property"].as_str().unwrap_or("").to_string();
+                }
+                if let Some(t) = v["tier"].as_str() {
+                    a.tier = t.to_string();
+                }
+                let spec = v["spec"].as_str().map(|s| s.to_string()).or_else(|| v["spec"]["name"].as_str().map(|s| s.to_string())).unwrap_or_default();
+                let req = ReplayReq {
+                    spec,
+                    ops: serde_json::from_value(v["ops"].clone()).ok(),
+                    schedule: serde_json::from_value(v["schedule"].clone()).ok(),
+                };
+                if req.ops.is_none() && req.schedule.is_none() {
+                    println!("this replay file is descriptive only (engine {}): {}", v["engine"], v["description"]);
+                    std::process::exit(0);
+                }
+                let _ = REPLAY.set(req);
                 i += 1;
             }
             s if a.prop.is_empty() => a.prop = s.to_string(),
@@ -127,7 +159,7 @@ fn seq_report(prop: &str, a: &Args, level: &str, results: Vec<seq::SeqResult>, r
                 continue;
             }
             let desc = format!("[{}] {} :: {}", v.spec, v.history.join(" "), v.findings[0].detail);
-            violations.push((json!({"engine": "seq", "spec": v.spec, "history": v.history, "findings": v.findings}), desc));
+            violations.push((json!({"engine": "seq", "spec": v.spec, "ops": v.ops, "history": v.history, "findings": v.findings}), desc));
         }
         for (k, h) in &r.known {
             known.push((k.clone(), format!("witness {}", h.join(" "))));
@@ -183,11 +215,53 @@ fn c01(a: &Args) -> Report {
         t.depth = s.depth - 1;
         specs.push(t);
     }
-    let results: Vec<_> = specs.iter().map(|s| seq::bfs(s, a.threads, &no_known)).collect();
+    // version runs: one key, every sequence of writes / deletes over three timestamps (the
+    // insertion path changes beyond four versions of a key), observed in memory, through the
+    // on-disk index (after a rotation) and after a restart
+    let mut run_alphabet = Vec::new();
+    for ts in [1u64, 2, 3] {
+        run_alphabet.push(Op::w(0, ts));
+        run_alphabet.push(Op::d(0, ts));
+    }
+    for (ename, epilogue, depth) in [
+        ("memory", vec![], if thorough { 7 } else { 6 }),
+        ("on-disk", vec![Op::Rot], if thorough { 7 } else { 5 }),
+        ("restart", vec![Op::Rst], if thorough { 6 } else { 5 }),
+    ] {
+        let mut t = SeqSpec::new(&format!("C01/version-run/{ename}"), run_alphabet.clone(), depth);
+        t.checks = Checks { outcome: true, latest: true, history: true, ..Default::default() };
+        t.keys = vec![0];
+        t.epilogue = epilogue;
+        specs.push(t);
+    }
+    let results = run_specs(&specs, a, &no_known);
     seq_report("C01", a, "model_checking", results, "BFS over operation sequences; a state is the canonical reference-model state; distinct_nontrivial counts distinct query-answer vectors observed")
 }
 
 fn run_specs(specs: &[SeqSpec], a: &Args, known: &seq::KnownFn) -> Vec<seq::SeqResult> {
+    if let Some(req) = REPLAY.get() {
+        if let (Some(ops), Some(spec)) = (&req.ops, specs.iter().find(|s| s.name == req.spec)) {
+            let r1 = seq::run_history_dyn(spec, ops);
+            let r2 = seq::run_history_dyn(spec, ops);
+            println!("REPLAY engine=seq spec={} history={}", spec.name, ops.iter().map(|o| o.short()).collect::<Vec<_>>().join(" "));
+            if r1.obs_after != r2.obs_after || r1.outcome != r2.outcome || r1.listing != r2.listing {
+                println!("MACHINERY-ERROR: the two executions of the history differ");
+                std::process::exit(2);
+            }
+            let fs = seq::judge(spec, ops, &r1);
+            for f in &fs {
+                println!("  {}: {}", f.kind, f.detail);
+            }
+            println!("outcome of the last operation: {:?}", r1.outcome);
+            crate::world::remove_dir(&r1.dir);
+            crate::world::remove_dir(&r2.dir);
+            let _ = std::fs::remove_dir_all(crate::world::scratch_root());
+            std::process::exit(if fs.is_empty() { 0 } else { 1 });
+        }
+        if req.ops.is_some() {
+            return vec![];
+        }
+    }
     specs.iter().map(|s| seq::bfs(s, a.threads, known)).collect()
 }
 
@@ -515,6 +589,30 @@ pub fn sched_probe() -> i32 {
 use crate::engines::sched::{self, COp, SchedResult, SchedSpec};
 
 fn run_sched_specs(specs: &[SchedSpec], threads: usize) -> Vec<SchedResult> {
+    if let Some(req) = REPLAY.get() {
+        if let (Some(schedule), Some(spec)) = (&req.schedule, specs.iter().find(|s| s.name == req.spec)) {
+            let (t1, p1, o1) = sched::run_once(spec, schedule);
+            let (t2, _, o2) = sched::run_once(spec, schedule);
+            println!("REPLAY engine=sched spec={} schedule={:?} ({} preemptions)", spec.name, schedule, t1.preemptions());
+            if t1.choices() != t2.choices() || o1.events != o2.events || o1.final_obs != o2.final_obs || t1.end != t2.end {
+                println!("MACHINERY-ERROR: the two executions of the schedule differ");
+                std::process::exit(2);
+            }
+            for e in &o1.events {
+                println!("  client {} {} [{}..{}] = {:?}", e.client, e.op.short(), e.inv, e.resp, e.res);
+            }
+            println!("  end: {:?}", t1.end);
+            let fs = sched::judge(spec, &t1, &p1, &o1);
+            for f in &fs {
+                println!("  {}: {}", f.kind, f.detail);
+            }
+            let _ = std::fs::remove_dir_all(crate::world::scratch_root());
+            std::process::exit(if fs.is_empty() { 0 } else { 1 });
+        }
+        if req.schedule.is_some() {
+            return vec![];
+        }
+    }
     use std::sync::atomic::{AtomicUsize, Ordering};
     use std::sync::Mutex;
     let next = AtomicUsize::new(0);
